@@ -27,7 +27,22 @@ def prime(text: str, what=("parse",)):
             from .shapes import zero_value
             for st in fcp.structs:
                 sch = schema_from_fcp(fcp, top=st.name)
-                serde.decode(fcp, st.name, serde.encode(fcp, st.name, zero_value(sch, ("struct", st.name))))
+                v = zero_value(sch, ("struct", st.name))
+                enc = serde.encode(fcp, st.name, v)
+                serde.decode(fcp, st.name, enc)
+                # aborted calls: whatever a call that raised part-way left behind must not leak into the next one
+                last = max(st.fields, key=lambda f: f.field_id).name if st.fields else None
+                bads = [{k: x for k, x in v.items() if k != last}, dict(v, **({last: object()} if last else {}))]
+                for bad in bads:
+                    try:
+                        serde.encode(fcp, st.name, bad)
+                    except Exception:
+                        pass
+                for data in (bytearray(enc[:-1]), bytearray(enc) + bytearray(b"\xff\xff\xff"), bytearray()):
+                    try:
+                        serde.decode(fcp, st.name, data)
+                    except Exception:
+                        pass
         except Exception:
             pass
     if "layout" in what:
